@@ -28,7 +28,7 @@ def ping_ok(self: Ref['mqtt.client.pubsubs.MQTTProtocol']) -> bool:
                  or (isa(self._pingReq.alarm, 'DelayedCall') and is_int(self._pingReq.alarm.t_status) and self._pingReq.alarm.t_status == 0
                      and is_int(self._pingReq.alarm.t_fn)
                      and self._pingReq.alarm.t_fn == fn('mqtt.client.base.MQTTBaseProtocol.doPingRequest.doPingError')
-                     and self._pingReq.alarm.t_owner == self)))
+                     and self._pingReq.alarm.t_owner == self and is_none(self._pingReq.alarm.t_arg))))
 
 
 @spec
@@ -102,7 +102,8 @@ def _(self: Ref['mqtt.client.base.MQTTBaseProtocol']):
                     and is_int(self._pingReq.alarm.t_status) and self._pingReq.alarm.t_status == 0
                     and is_int(self._pingReq.alarm.t_fn)
                     and self._pingReq.alarm.t_fn == fn('mqtt.client.base.MQTTBaseProtocol.doPingRequest.doPingError')
-                    and self._pingReq.alarm.t_owner == self and num(self._pingReq.alarm.t_delay) == num(self._pingReq.keepalive)))
+                    and self._pingReq.alarm.t_owner == self and is_none(self._pingReq.alarm.t_arg)
+                    and num(self._pingReq.alarm.t_delay) == num(self._pingReq.keepalive)))
     ensures(implies(not old(is_none(self._pingReq.alarm)), unchanged(self._pingReq.alarm)))
 
 
@@ -120,7 +121,7 @@ def _(self: Ref['mqtt.client.base.MQTTBaseProtocol']):
     requires(is_none(self._pingReq.alarm)
              or (isa(self._pingReq.alarm, 'DelayedCall') and is_int(self._pingReq.alarm.t_status) and self._pingReq.alarm.t_status == 0))
     al = as_ref(self._pingReq.alarm)
-    modifies(self._pingReq.alarm, al.t_status)
+    modifies(self._pingReq.alarm, self._pingReq.alarm.t_status)
     # a pending deadline is cancelled; an unsolicited PINGRESP has no effect and raises nothing
     ensures(is_none(self._pingReq.alarm))
     ensures(implies(not old(is_none(self._pingReq.alarm)), is_int(al.t_status) and al.t_status == 1))
@@ -157,9 +158,10 @@ def _(self: Ref['mqtt.client.base.MQTTBaseProtocol'], request: Ref['mqtt.pdu.CON
     requires(is_ref(self.CONNECTING))
     modifies(self._cleanStart, self._version, self.transport.tr_out, self.state, request.alarm, request.deferred,
              request.encoded, self.connReq, allocates())
-    ensures(is_bool(result.d_fired))
+    ensures(is_bool(result.d_fired) and is_list_bytes(self.transport.tr_out))
     # refused up front: failed Deferred, nothing written, no timer, state unchanged
     ensures(implies(connect_rejected(request), result.d_fired and not result.d_ok and is_exc(result.d_val)
+                    and not (result.d_val == exc('MQTTStateError'))
                     and out(self) == old(out(self)) and unchanged(self.state, self.connReq, request.alarm, self._cleanStart, self._version)))
     # accepted: exactly one CONNECT, connecting, one CONNACK timer of keepalive (10 if 0) seconds
     ensures(implies(not connect_rejected(request),
@@ -168,6 +170,7 @@ def _(self: Ref['mqtt.client.base.MQTTBaseProtocol'], request: Ref['mqtt.pdu.CON
                                                              is_str(request.username), request.username, is_str(request.password),
                                                              request.password, request.keepalive, request.clientId))
                     and self.state == self.CONNECTING and self.connReq == request and result == request.deferred
+                    and isa(request.deferred, 'Deferred') and request.deferred.d_owner == request
                     and not result.d_fired and self._cleanStart == request.cleanStart and self._version == request.version
                     and isa(request.alarm, 'DelayedCall') and is_fresh(request.alarm) and is_int(request.alarm.t_status)
                     and request.alarm.t_status == 0 and is_int(request.alarm.t_fn)
@@ -204,16 +207,14 @@ KEEP_CONN = ['_buffer', 'g_dispatched', 'g_firing', 'id', 'IDLE', 'CONNECTING', 
 @contract('mqtt.client.base.MQTTBaseProtocol.handleCONNACK', props=['C04', 'C15', 'C12', 'C11', 'C16', 'C13', 'C18'], classes=PROFILES)
 def _(self: Ref['mqtt.client.pubsubs.MQTTProtocol'], response: Ref['mqtt.pdu.CONNACK']):
     requires(is_obj(self.addr))
-    requires(base_ok(self) and connecting(self) and conn_deferred_owned(self))
-    requires(forall(lambda k: implies(contains(S(self), k), not is_none(S(self)[k].alarm))))
-    requires(forall(lambda k: implies(contains(U(self), k), not is_none(U(self)[k].alarm))))
+    requires(any_state(self) and self.state == self.CONNECTING)
     requires(is_int(response.resultCode) and 0 <= response.resultCode <= 255 and is_bool(response.session))
     req = as_ref(self.connReq)
     d = as_ref(self.connReq.deferred)
     al = as_ref(self.connReq.alarm)
     ka = as_int(self.connReq.keepalive)
     modifies(all_but(KEEP_CONN), callbacks())
-    ensures(base_ok(self))
+    ensures(any_state(self))
     ensures(is_none(self.connReq) and is_int(al.t_status) and al.t_status == 1)
     # accepted: connected, Deferred fires with the session-present flag, session purged/resumed, keepalive wired
     ensures(implies(response.resultCode == 0, self.state == self.CONNECTED and alarms_set(self)
